@@ -5,6 +5,7 @@ use crate::util::Stats;
 use std::io::Write;
 
 pub mod url;
+pub mod link;
 pub mod lines;
 pub mod alt;
 pub mod refs;
@@ -47,6 +48,7 @@ pub type StreamFn = fn(n: usize, rng: &mut Rng, out: &mut Out);
 pub fn streams() -> Vec<(&'static str, StreamFn)> {
     vec![
         ("url", url::run as StreamFn),
+        ("link", link::run as StreamFn),
         ("lines", lines::run as StreamFn),
         ("alt", alt::run as StreamFn),
         ("refs", refs::run as StreamFn),
